@@ -35,7 +35,7 @@ ASSUMPTIONS = [
     'parseable as a number',
 ]
 ANCHORS = ['Table.delimited_self', 'Table._extract_data_from_tsv', 'Table.from_tsv', '_convert', 'parse_biom_table']
-REQUIRED = ['text_category_round_trips', 'last_sample_named_like_a_metadata_column', 'scale_exports', 'ids_with_blanks_at_their_edges', 'non_finite_value_in_last_column', 'export_legacy_function', 'export_other_column_name',
+REQUIRED = ['ids_with_line_boundary_characters', 'text_category_round_trips', 'last_sample_named_like_a_metadata_column', 'scale_exports', 'ids_with_blanks_at_their_edges', 'non_finite_value_in_last_column', 'export_legacy_function', 'export_other_column_name',
             'import_legacy_convert_table_to_biom', 'export_asked_for_absent_metadata', 'exported_again_after_change', 'export_to_tsv', 'export_str', 'export_direct_io',
             'export_cli', 'import_from_tsv_lines', 'import_from_tsv_handle',
             'import_load_table', 'import_load_table_gz',
@@ -59,8 +59,7 @@ def plan(tier):
 
 def id_ok(i):
     return (i and not i.startswith('#') and not i[0].isspace() and
-            not i[-1].isspace() and not any(c in i for c in '\t\n\r\x0b\x0c'
-                                            '\x1c\x1d\x1e\x85  '))
+            not i[-1].isspace() and not any(c in i for c in '\t\n\r'))
 
 
 def text_md_case(ctx, index, r):
@@ -179,6 +178,20 @@ def run_case(ctx, index):
         if nm not in spec.samp_ids:
             spec.samp_ids[-1] = nm
             ctx.count('last_sample_named_like_a_metadata_column')
+    if r.random() < .1:
+        # characters some line-splitting routines take for line ends, inside
+        # an id (only \n and \r end a line of the classic format)
+        odd = r.choice(['\x0b', '\x0c', '\x1c', '\x1d', '\x1e', '\x85',
+                        '\u2028', '\u2029'])
+        k = r.randrange(len(spec.obs_ids))
+        spec.obs_ids[k] = spec.obs_ids[k][:1] + odd + spec.obs_ids[k][1:] + 'z'
+        k = r.randrange(len(spec.samp_ids))
+        spec.samp_ids[k] = spec.samp_ids[k][:1] + odd + spec.samp_ids[k][1:] \
+            + 'z'
+        if spec.obs_md and 'taxonomy' in spec.obs_md[0]:
+            spec.obs_md[-1]['taxonomy'] = ['k__in' + odd + 'side'] + \
+                spec.obs_md[-1]['taxonomy'][1:]
+        ctx.count('ids_with_line_boundary_characters')
     edge_blanks = r.random() < .15
     if edge_blanks:
         # blanks at the edges of an id are part of the id (fields are
